@@ -82,6 +82,7 @@ class Registers:
     def __init__(self):
         self._R = {}
         self.changed_registers = [False] * 16
+        self.itstate_restored = False
         for register in RName:
             self._R[register] = 0
         self.cpsr = CPSR()
@@ -462,6 +463,8 @@ class Registers:
     def cpsr_write_by_instr(self, value, bytemask, is_excp_return):
         privileged = self.current_mode_is_not_user()
         nmfi = self.sctlr.nmfi
+        if is_excp_return:
+            self.itstate_restored = True
         if bit_at(bytemask, 3):
             self.cpsr.value = set_substring(self.cpsr.value, 31, 27, substring(value, 31, 27))
             if is_excp_return:
